@@ -1,5 +1,28 @@
 """What MANIFEST.json claims. Edited by hand as coverage grows; tools/gen_manifest.py renders it."""
+LIB = "Library layer (sbepp.hpp templates) is proved for all inputs; "
+GEN = "generated-code layer is translation validation per corpus schema (corpus/*.xml) against sbv/oracle.py. "
 CLAIMED = {
+    "C01": ("proof", LIB + "set_primitive/set_value/cursor setters/group resize write exactly the spec byte image and nothing else (assigns clauses), 11 primitives x 2 byte orders, checked and unchecked builds; " + GEN +
+            "Every generated setter of every corpus level writes exactly the member bytes at the oracle's offset.", "DESIGN.md 6 C01", "Whole-message composition is argued from per-setter frames (each setter assigns only its member bytes)."),
+    "C02": ("proof", LIB + "get_primitive/get_value/static views/cursor getters return SPEC_LOAD of the byte image, bit-exact incl. float NaN payloads, both byte orders, checked+unchecked; " + GEN +
+            "every generated getter of every corpus level returns the oracle's field.", "DESIGN.md 6 C02", "C++17 lowering; constant evaluation is covered only as far as it executes the same statements."),
+    "C03": ("proof", LIB + "every geometry postcondition is stated over the wire blockLength/numInGroup read from the buffer (first dynamic member, entries, iterators, cursor 'last' methods); " + GEN +
+            "generated getters verified with symbolic wire block lengths.", "DESIGN.md 6 C03", ""),
+    "C04": ("proof", LIB + "each accessor method of cursor and of the init/init_dont_move/dont_move/skip wrappers: agrees with random access, documented end position, wrong position reported (S) / legal call never reported (N); cursor ranges and input iterators.",
+            "DESIGN.md 6 C04", "Generated cursor offset pairs are covered per corpus schema by the traversal lemmas when registered."),
+    "C05": ("proof", LIB + "flat group size_bytes equals HDR + numInGroup*blockLength as a mathematical product (no wrap) for every dimension type pair; nested size_bytes closed by a loop contract; data/array size_bytes exact.", "DESIGN.md 6 C05", ""),
+    "C10": ("proof", "Two obligations per function that checks or dereferences: (S) handler=assume(false): CBMC pointer/bounds checks pass for any buffer length; (N) documented preconditions + in-bounds => handler unreachable.", "DESIGN.md 6 C10",
+            "Known finding: uint64 wire blockLength >= 2^63 wraps the pointer (listed in known_findings.json)."),
+    "C11": ("proof", "Every non-mutating function under contract carries an empty assigns clause (or only the cursor position) enforced by DFCC frame instrumentation; conversions towards const keep the same range.", "DESIGN.md 6 C11",
+            "The compile-time half (mutators do not exist for const byte types) is not a function contract and is NOT decided by this check."),
+    "C12": ("proof", "Contracts + law lemmas on random_access_iterator, forward_iterator, flat/nested group bases for dimension type pairs (3 quick, 16 thorough): entry i at data start + i*wire blockLength, begin()+size()==end(), it[n]==*(it+n), (it+n)-n==it, orderings, nested ++ moves by entry size, resize/clear touch only numInGroup.",
+            "DESIGN.md 6 C12", "Iterator arithmetic proved for |n|, blockLength <= 2^20 (product must not overflow int64); n == difference_type minimum excluded for subtracting forms."),
+    "C13": ("proof", "One-step refinement of std::vector per dynamic_array_ref operation: structure clauses (length prefix, returned iterator, reporting, frame) unbounded with memmove/memset replaced by frame contracts; content clauses bounded (buffer <= 8 bytes, ghost index).",
+            "DESIGN.md 6 C13", "Content clauses are bounded stand-ins and are counted separately in the evidence; range inserts (forward/input iterators) only in the thorough tier."),
+    "C14": ("proof", "static_array_ref<N> for N in {1,2,3,4,8}: strlen/strlen_r/assign_string/fill/assign/element access exact for all 256^N contents; loops unwind completely because N is a template constant (unwinding assertions on).", "DESIGN.md 6 C14",
+            "N itself is sampled; memchr is a C stub from the ISO text (CBMC ships no model)."),
+    "C16": ("proof", "required_base/optional_base for the 22 built-in types: null, has_value, value_or, in_range, all six comparisons against the documented rules incl. NaN; min/max/null against the SBE table.", "DESIGN.md 6 C16",
+            "Schema-defined types with explicit min/max/null are covered per corpus schema when the generated-layer contracts are registered."),
     "C15": ("proof",
             "bitset_base<T> get_bit/set_bit/raw access/==/!=/constructors proved bit-exactly against a 64-bit spec for all 2^W values x all indices x both bool values, W in {8,16,32,64}, with shift-distance checks on; loop-free, so unbounded.",
             "DESIGN.md section 6 C15", "Generated choice accessors/visit are covered per corpus schema only."),
